@@ -945,8 +945,14 @@ func (p *pp) printArg(arg Object, verb rune) {
 		p.fmt.fmtS(arg.TypeName())
 		return
 	case 'v':
-		p.fmt.fmtS(arg.String())
-		return
+		switch arg.(type) {
+		case *Bool, *Int, *Float, *String:
+			// formatted below with their documented default verbs
+			// (%t, %d, %g, %s), like Go's fmt does
+		default:
+			p.fmt.fmtS(arg.String())
+			return
+		}
 	}
 
 	// Some types can be done without reflection.
